@@ -162,6 +162,9 @@ META = (META[0] + ' PREFIXWIN (a search of the already visited prefix inside a l
 META = (META[0] + ' MEMSHORT (a bytewise memcmp / memcpy / memmove over elements is guarded by the trait that makes bytes and values agree; controls in fixtures/extra10_pos.hpp).', META[1])
 
 
+META = (META[0] + ' TYPEDDEF (an overload without functor delegates with a transparent functor or one fixed to the element type, never one fixed to another type parameter such as the accumulator).', META[1])
+
+
 def run(chk, tier):
     db = D.load("checks")
     from ..rules import params as _PR
@@ -180,6 +183,8 @@ def run(chk, tier):
     if _X10.mem_shortcut_area(chk, db, ['_algorithm/', '_numeric/']) < 100:      # MEMSHORT (zero calls expected on the library)
         chk.analysis_broken('MEMSHORT: fewer than 100 function bodies scanned (floor 100)')
     _X10.positive_controls(chk, D, ('MEMSHORT',))
+    if _X10.typed_default_area(chk, db, ['_algorithm/', '_numeric/']) < 20:      # TYPEDDEF
+        chk.analysis_broken('TYPEDDEF: fewer than 20 delegations with a functor object built on the spot (floor 20)')
     from ..rules import extra9 as _X9
     if _X9.prefix_window_area(chk, db, ['_algorithm/', '_numeric/']) < 1:      # PREFIXWIN
         chk.unknown_instance('PREFIXWIN', 'etl::is_permutation', 'no search of the visited prefix inside a loop found')
